@@ -315,7 +315,7 @@ class ObjectTemplate(base.HyperValue, utils.Formattable):
             f'Value is missing from input. Path=\'{path}\'.')
       if (isinstance(template_value, base.HyperValue)
           and (not self._where or self._where(template_value))):
-        children.append(template_value.encode(input_value))
+        children.append((path, template_value.encode(input_value)))
       elif isinstance(template_value, derived.DerivedValue):
         if self._compute_derived:
           referenced_values = [
@@ -383,7 +383,19 @@ class ObjectTemplate(base.HyperValue, utils.Formattable):
       return template_value
 
     utils.merge_tree(self._value, value, _encode, root_path=self._root_path)
-    return geno.DNA(None, children)
+
+    # NOTE: the input is walked in ITS key order, which may differ from the
+    # template's (dict equality ignores it): the child DNAs are emitted in the
+    # order of the template's hyper primitives, which is the order of the spec.
+    num_root_keys = len(self._root_path.keys) if self._root_path else 0
+    order = {
+        tuple(p.keys): i for i, (p, _) in enumerate(self._hyper_primitives)
+    }
+    positions = [order.get(tuple(p.keys[num_root_keys:])) for p, _ in children]
+    if None not in positions:
+      children = [c for _, c in sorted(
+          zip(positions, children), key=lambda x: x[0])]
+    return geno.DNA(None, [dna for _, dna in children])
 
   def try_encode(self, value: Any) -> Tuple[bool, geno.DNA]:
     """Try to encode a value without raise Exception."""
